@@ -419,6 +419,30 @@ class SimA(SimBase):
                 s[key] = val
         return self._sync(f())
 
+    def session_block(self, sid, inside):
+        """(see SimT.session_block; inside() is awaited if it returns an
+        awaitable)"""
+        t = Ticket(self, 'app', {'call': 'session-block'})
+        self.tickets.append(t)
+
+        async def run():
+            try:
+                try:
+                    async with self.server.session(sid) as s:
+                        s['written-in-block'] = 1
+                        r = inside()
+                        if asyncio.iscoroutine(r):
+                            await r
+                    t.result = 'left'
+                except asyncio.CancelledError:
+                    raise
+                except BaseException as e:
+                    t.result = type(e).__name__
+            finally:
+                t.finish()
+        t.task = self.loop.create_task(run())
+        return t
+
     # --------------------------------------------------------------- running
     def quiesce(self):
         self.loop.quiesce()
